@@ -32,6 +32,7 @@ struct Config {
   bool allow_null = false;         // allocation failure is legitimate (fault plans active)
   int  clock_jitter = 0;           // advance the virtual clock by random amounts between ops (C13, C18)
   bool purge_cb = false;           // check purge ranges against the shadow model (C13)
+  int  flip_options = 0;           // C13: change run-time options with mi_option_set in the middle of the history (1 in N operations)
   bool threads = false;            // helper-thread ops allowed (remote frees, thread exit)
   size_t max_live_bytes = 192u << 20;
   size_t max_live_blocks = 20000;
@@ -99,7 +100,7 @@ struct State {
   bool walk_disabled = false;     // after a forged free-list link was consumed the allocator legitimately lost free blocks: walks are not judged any more
   bool region_check = false;      // every returned pointer must lie inside memory mimalloc obtained from the OS (C17)
   bool pending_remote = false;    // cross-thread frees were issued since the last collect (C12: walks are judged without pending remote frees)
-  uint64_t n_alloc_via_realloc_null = 0;
+  uint64_t n_alloc_via_realloc_null = 0, n_option_flips = 0;
   int foreign_live = 0;           // blocks allocated by exited helper threads that are not yet attributed to a heap
   // phase
   int phase = 0; uint64_t phase_left = 0; int victim_mode = 0; size_t victim_class = 0;
